@@ -86,6 +86,9 @@ pub static PAUSE_AT: AtomicI64 = AtomicI64::new(-1);
 /// bit k set: the k-th recv() call (counted from when the mask was armed) is answered EINTR
 pub static EINTR_RECV_MASK: AtomicU64 = AtomicU64::new(0);
 pub static EINTR_RECV_CALLNO: AtomicU64 = AtomicU64::new(0);
+/// the next n accept4() / blocking recvmsg() calls are answered EINTR
+pub static EINTR_ACCEPT_NEXT: AtomicU64 = AtomicU64::new(0);
+pub static EINTR_RECVMSG_NEXT: AtomicU64 = AtomicU64::new(0);
 pub static COUNT_CALLS: AtomicBool = AtomicBool::new(false);
 /// make connect() fail with ECONNREFUSED / bind() fail: counters of forced failures
 pub static FAIL_MMAP: AtomicBool = AtomicBool::new(false);
@@ -441,6 +444,13 @@ pub unsafe extern "C" fn accept(fd: i32, a: *mut libc::sockaddr, l: *mut u32) ->
 }
 #[no_mangle]
 pub unsafe extern "C" fn accept4(fd: i32, a: *mut libc::sockaddr, l: *mut u32, fl: i32) -> i32 {
+    // a signal handled while waiting in accept(): EINTR, nothing accepted
+    if EINTR_ACCEPT_NEXT.load(Ordering::SeqCst) > 0 {
+        EINTR_ACCEPT_NEXT.fetch_sub(1, Ordering::SeqCst);
+        rec(|| Ev::Accept { fd, r: -1, cloexec: false });
+        set_errno(libc::EINTR);
+        return -1;
+    }
     let r = real!("accept4", unsafe extern "C" fn(i32, *mut libc::sockaddr, *mut u32, i32) -> i32)(fd, a, l, fl);
     let e = errno();
     ledger_open(r, "accept4");
@@ -494,6 +504,12 @@ pub unsafe extern "C" fn send(fd: i32, b: *const libc::c_void, n: usize, fl: i32
 #[no_mangle]
 pub unsafe extern "C" fn recvmsg(fd: i32, m: *mut libc::msghdr, fl: i32) -> isize {
     gate(|| format!("recvmsg {}", fd));
+    // a signal handled while waiting in a blocking recvmsg(): EINTR, nothing received
+    if EINTR_RECVMSG_NEXT.load(Ordering::SeqCst) > 0 && (fl & libc::MSG_DONTWAIT) == 0 {
+        EINTR_RECVMSG_NEXT.fetch_sub(1, Ordering::SeqCst);
+        set_errno(libc::EINTR);
+        return -1;
+    }
     let mut want = 0usize;
     for i in 0..(*m).msg_iovlen as usize {
         want += (*(*m).msg_iov.add(i)).iov_len;
